@@ -226,6 +226,7 @@ SEMANTIC_SEEDS = [
     "global T = @record{x: integer}\nlocal function f(a: auto) local t: T = {x=a} return t.x end\nprint(f(1))\n",
     # mutually recursive polymorphic / auto functions
     "local f, g\nfunction f(a: auto) if a > 0 then return g(a - 1) end return 0 end\nfunction g(a: auto) return f(a) end\nprint(f(3))\n",
+    "local f, g\nfunction f(a: auto) return a end\nfunction g(a: auto) return f(a) end\nprint(g(3))\n",
     "local function f(a: auto): integer if a > 0 then return f(a - 1) end return 0 end\nprint(f(3))\n",
     "local function f(a: auto) if a > 0 then return f(a - 1) end return 0 end\nprint(f(3))\n",
     "local function f(a: auto) return f(a) end\nprint(f(1))\n",
@@ -272,6 +273,13 @@ SEMANTIC_SEEDS_POLY_GLOBAL = [
     "local function f(a: auto) ## if a.type.is_integral then\n return a + G ## else\n return 0 ## end\nend\nprint(f(1))\nglobal G = 2\n",
     "global G = 2\nlocal function f(a: auto) ## if a.type.is_integral then\n return a + G ## else\n return 0 ## end\nend\nprint(f(1))\n",
 ]
+
+
+# programs that must be rejected with a located diagnostic and exit status 1 (text the message must contain)
+SEMANTIC_MUST_FAIL = {
+    "local f, g\nfunction f(a: auto) if a > 0 then return g(a - 1) end return 0 end\nfunction g(a: auto) return f(a) end\nprint(f(3))\n": "polymorphic functions cannot be forward declared",
+    "local f, g\nfunction f(a: auto) return a end\nfunction g(a: auto) return f(a) end\nprint(g(3))\n": "polymorphic functions cannot be forward declared",
+}
 
 
 def semantic_program(rng):
